@@ -223,6 +223,50 @@ void laws_for(Ctx& c, const expression_t& e, const std::vector<symbol_t>& other_
                 c.fail("clone-not-independent(b->b2)", de);
         }
     }
+    // ---- every cloning entry point returns a tree of its own: no node shared with e, and changing it leaves e alone
+    auto fresh_copy = [&](const char* what, expression_t r, const std::string& expect_dump) {
+        c.count("clone-variant");
+        if (c.D(r) != expect_dump)
+            c.fail(std::string(what) + "-dump-differs", de + " got=" + c.D(r));
+        std::vector<expression_t> a, b;
+        all_nodes(e, a);
+        all_nodes(r, b);
+        std::set<expression_t> sa(a.begin(), a.end());
+        for (auto& n : b)
+            if (sa.count(n)) {
+                c.fail(std::string(what) + "-shares-node", std::string(vd::kind_name(n.get_kind())) + " in " + de);
+                return;
+            }
+        std::vector<Path> ps;
+        Path cur;
+        all_paths(r, cur, ps);
+        for (auto& p : ps) {
+            if (p.empty() || is_binder_slot(r, p))
+                continue;
+            r = replace_at(r, p, expression_t::create_constant(31337));
+            node_at(r, Path(p.begin(), p.end() - 1)).set_type(type_t::create_primitive(Constants::DOUBLE));
+            break;
+        }
+        if (!r.empty())
+            r.set_type(type_t::create_primitive(Constants::STRING));
+        if (c.D(e) != de || safe_str(e) != se)
+            c.fail(std::string(what) + "-not-independent", de);
+    };
+    {
+        std::set<symbol_t> bound0, fs0;
+        free_symbols(e, bound0, fs0);
+        type_t t0 = e.get_type();
+        for (auto& s : fs0) {
+            fresh_copy("clone-from-to-same-symbol", e.clone_deeper(s, s), de);
+            break;
+        }
+        if (!other_syms.empty()) {
+            symbol_t no = other_syms[c.rng() % other_syms.size()];
+            if (!fs0.count(no) && !bound0.count(no))
+                fresh_copy("clone-from-to-absent-symbol", e.clone_deeper(no, no), de);
+        }
+        e.get_type() == t0 ? void() : c.fail("clone-variant-changed-type", de);
+    }
     // ---- subst
     {
         std::set<symbol_t> bound, fs;
@@ -269,6 +313,7 @@ void laws_for(Ctx& c, const expression_t& e, const std::vector<symbol_t>& other_
                                                           " got=" + c.D(r3));
                     if (c.D(e) != de)
                         c.fail("clone-from-to-mutated-original", de);
+                    fresh_copy("clone-from-to", r3, expect2);
                 }
             }
         }
